@@ -102,3 +102,11 @@ MUTANTS += [
  {"id": "paren-cut-two-from-the-end", "kind": "break", "edits": [{"patch": "/verif/benign/h4-distinfo-2/patch.diff"}, ("src/distinfo.rs", "path.push(OsStr::from_bytes(&s[1..s.len() - 1]));", "path.push(OsStr::from_bytes(&s[1..s.len() - 2]));")], "expect": ["PANIC@distinfo::Line::from_bytes"]},
  {"id": "paren-ends-same-byte-baseline", "kind": "break", "edits": [("src/distinfo.rs", "if s[0] == b'(' && s[s.len() - 1] == b')' {", "if s[0] == b'|' && s[s.len() - 1] == b'|' {")], "expect": ["PANIC@distinfo::Line::from_bytes"]},
 ]
+MUTANTS += [
+ # a helper scanning backwards with an index cursor that starts at the length (judged by C17 only: C09 does not recognise this form)
+ {"id": "descending-cursor-silent-for-c17", "kind": "benign", "edits": [{"patch": "/verif/benign/h3-summary-2/patch.diff"}]},
+ {"id": "descending-cursor-guard-too-low", "kind": "break", "edits": [{"patch": "/verif/benign/h3-summary-2/patch.diff"}, ("src/summary.rs", "    while end >= 2 {", "    while end >= 1 {")], "expect": ["PANIC@summary::complete_records_len"]},
+ {"id": "descending-cursor-starts-past-the-end", "kind": "break", "edits": [{"patch": "/verif/benign/h3-summary-2/patch.diff"}, ("src/summary.rs", "    let mut end = buf.len();", "    let mut end = buf.len() + 1;")], "expect": ["PANIC@summary::complete_records_len"]},
+ {"id": "descending-cursor-never-moves", "kind": "break", "edits": [{"patch": "/verif/benign/h3-summary-2/patch.diff"}, ("src/summary.rs", "        end -= 1;\n", "")], "expect": ["TERM@summary::complete_records_len"]},
+ {"id": "descending-cursor-result-one-past", "kind": "break", "edits": [{"patch": "/verif/benign/h3-summary-2/patch.diff"}, ("src/summary.rs", "            return Some(end);", "            return Some(end + 1);")], "expect": ["PANIC@<summary::SummaryStream as std::io::Write>::write"]},
+]
